@@ -107,34 +107,36 @@ Inductive wop :=
 | WCond (w : string)
 | WMem (b : wbase) (t : wmemtail) (c : wmemclose).
 
-Definition has_shift_prefix (w : string) : bool :=
-  orb (match shift_split w with Some _ => true | None => false end) (String.eqb (lower w) "mul").
+(* a word the grammar reads as a shift operator when it follows `operand ,`: a word starting with a shift
+   operator as the parser was found, the operator itself once shift operators are whole words (fx_word) *)
+Definition has_shift_prefix (fx : fixes) (w : string) : bool :=
+  orb (match shift_split fx w with Some _ => true | None => false end) (String.eqb (lower w) "mul").
 (* an identifier that does not spell a register, an alias or a condition code *)
 Definition plain_ident (w : string) : bool := match classify w with CIdent => is_ident w | _ => false end.
 Definition elem_okb (r : wreg) : bool := andb (wreg_okb r) (orb (is_vec r) (is_scalar r)).
 Definition idx_okb (i : option string) : bool := match i with None => true | Some d => dec_ok d end.
-(* extend/shift operators of the A64 addressing modes: what the implementation understands; `full` adds the
-   architecture's sxtx, which it does not *)
-Definition ext_ops (full : bool) : list string :=
-  if full then ["lsl";"uxtw";"sxtw";"uxtb";"sxtx"] else ["lsl";"uxtw";"sxtw";"uxtb"].
+(* extend/shift operators of the A64 addressing modes: what the implementation understands; the
+   architecture's sxtx only with the repair fx_sxtx *)
+Definition ext_ops (fx : fixes) : list string :=
+  (["lsl";"uxtw";"sxtw";"uxtb"] ++ (if fx_sxtx fx then ["sxtx"] else []))%list.
 (* every upper/lower-case spelling of a lower-case word *)
 Fixpoint variants (s : string) : list string :=
   match s with
   | EmptyString => [""]
   | String c r => flat_map (fun t => [String c t; String (upc c) t]) (variants r)
   end.
-Definition ext_words (full : bool) : list string := flat_map variants (ext_ops full).
+Definition ext_words (fx : fixes) : list string := flat_map variants (ext_ops fx).
 Definition cond_words : list string := flat_map variants cond_codes.
-Definition wext_okb (full : bool) (e : wext) : bool :=
+Definition wext_okb (fx : fixes) (e : wext) : bool :=
   match e with mkwext op am =>
-    andb (mem_str op (ext_words full))
+    andb (mem_str op (ext_words fx))
          (match am with None => true
                    | Some (_, n) => andb (num_okb n) (andb (negb (n_neg n)) (negb (n_hex n))) end)
   end.
 Definition wbase_okb (b : wbase) : bool :=
   match b with BX _ n => Nat.ltb n 32 | BSp w => mem_str w sp_words end.
 Definition nonempty_l {A} (l : list A) : bool := match l with [] => false | _ => true end.
-Definition wop_okb (full : bool) (o : wop) : bool :=
+Definition wop_okb (fx : fixes) (o : wop) : bool :=
   match o with
   | WReg r => wregop_okb r
   | WList els i => andb (nonempty_l els) (andb (forallb elem_okb els) (idx_okb i))
@@ -149,7 +151,7 @@ Definition wop_okb (full : bool) (o : wop) : bool :=
            | MTNone => true
            | MTOff _ n => num_okb n
            | MTIdx p n e => andb (memb p ["x";"w";"X";"W"]%char)
-                                 (andb (Nat.ltb n 32) (match e with None => true | Some e' => wext_okb full e' end))
+                                 (andb (Nat.ltb n 32) (match e with None => true | Some e' => wext_okb fx e' end))
            end)
           (match c with MCPost _ n => num_okb n | _ => true end))
   end.
@@ -255,8 +257,8 @@ Definition comment_okb (c : option string) : bool := match c with None => true |
 Definition is_mem (o : wop) : bool := match o with WMem _ _ _ => true | _ => false end.
 Definition swallows_shift (o : wop) : bool :=     (* operand kinds whose grammar element continues with `, shift_op` *)
   negb (is_mem o).
-Definition shiftlike (o : wop) : bool :=
-  match o with WIdent false w => has_shift_prefix w | WCond w => has_shift_prefix w | _ => false end.
+Definition shiftlike (fx : fixes) (o : wop) : bool :=
+  match o with WIdent false w => has_shift_prefix fx w | WCond w => has_shift_prefix fx w | _ => false end.
 (* valid operand order: the memory operand is last; a condition code is never the first operand *)
 Fixpoint order_okb (ops : list wop) : bool :=
   match ops with
@@ -264,11 +266,13 @@ Fixpoint order_okb (ops : list wop) : bool :=
   | [o] => true
   | o :: r => andb (negb (is_mem o)) (order_okb r)
   end.
-(* the restriction of the _partial theorem: no label spelled like a shift operator after an operand
-   whose grammar element may be followed by a shift *)
-Fixpoint noswallow_okb (ops : list wop) : bool :=
+(* no label the grammar reads as a shift operator after an operand whose grammar element may be followed
+   by a shift: as the parser was found every label with a shift-operator prefix (`cbz x1, lsl_loop`, a
+   defect), with the repair fx_word only a label spelled exactly like a shift operator (`cbz x1, lsl`,
+   inherently ambiguous in this grammar) *)
+Fixpoint noswallow_okb (fx : fixes) (ops : list wop) : bool :=
   match ops with
-  | o :: ((o' :: _) as r) => andb (negb (andb (swallows_shift o) (shiftlike o'))) (noswallow_okb r)
+  | o :: ((o' :: _) as r) => andb (negb (andb (swallows_shift o) (shiftlike fx o'))) (noswallow_okb fx r)
   | _ => true
   end.
 Definition first_okb (ops : list wop) : bool :=
@@ -277,16 +281,22 @@ Definition first_okb (ops : list wop) : bool :=
   | WIdent _ w :: _ => negb (prefetch_word w)
   | _ => true
   end.
-Definition wline_okb (full : bool) (l : wline) : bool :=
+(* The sub-language of configuration fx.  `wline_okb fx_all` is the language the property quantifies over;
+   a configuration that lacks a repair excludes exactly the lines on which that defect shows:
+     fx_word = false   noswallow_okb also excludes labels that merely START with a shift operator,
+     fx_sxtx = false   ext_words lacks sxtx,
+     fx_dir  = false   no comment containing ',' after a directive parameter starting with a letter or '.',
+     fx_cond = false   (a restriction on the layout, cond_tight below). *)
+Definition wline_okb (fx : fixes) (l : wline) : bool :=
   match l with
   | WLInstr mn ops c =>
     andb (mnemonic_ok mn) (andb (negb (head_is (ceq ".") mn))
-    (andb (Nat.leb (length ops) 5) (andb (forallb (wop_okb full) ops)
-    (andb (order_okb ops) (andb (first_okb ops) (andb (comment_okb c) (orb full (noswallow_okb ops))))))))
+    (andb (Nat.leb (length ops) 5) (andb (forallb (wop_okb fx) ops)
+    (andb (order_okb ops) (andb (first_okb ops) (andb (comment_okb c) (noswallow_okb fx ops)))))))
   | WLLabel n c => andb (is_ident n) (comment_okb c)
   | WLDirective n ps c =>
     andb (dir_name_ok ("." ++ n)) (andb (forallb (fun p => andb (dir_param_ok p) (sall is_wordch p)) ps) (andb (comment_okb c)
-         (orb full (negb (match c with
+         (orb (fx_dir fx) (negb (match c with
                           | Some raw => andb (has_comma raw) (swallowing_param (last ps "0"))
                           | None => false end)))))
   | WLComment raw => raw_okb raw
@@ -350,7 +360,8 @@ Fixpoint mark (lay : list string) (trail : string) (ts : list tok) : list tok :=
      | _ => t
      end) :: mark (tl lay) trail r
   end.
-(* the layout restriction of the _partial theorem: no white space directly after a condition-code word *)
+(* the layout restriction of a configuration without the repair fx_cond: no white space directly after a
+   condition-code word *)
 Fixpoint tightb (lay : list string) (trail : string) (ts : list tok) : bool :=
   match ts with
   | [] => true
@@ -358,8 +369,9 @@ Fixpoint tightb (lay : list string) (trail : string) (ts : list tok) : bool :=
     let next_ws := match r with [] => trail | _ => hd "" (tl lay) end in
     andb (match t with TW w => negb (andb (nonempty next_ws) (is_cond w)) | _ => true end) (tightb (tl lay) trail r)
   end.
-Definition cond_tight (lay : list string) (trail : string) (l : wline) : bool :=
-  let ts := toks_line l in tightb lay (if ends_with_comment ts then "" else trail) ts.
+Definition cond_tight (fx : fixes) (lay : list string) (trail : string) (l : wline) : bool :=
+  orb (fx_cond fx)
+      (let ts := toks_line l in tightb lay (if ends_with_comment ts then "" else trail) ts).
 
 (* layout_okb = the tokens are lexable (a property of the tree: Proofs/ParseA64Words.v shows it for every
    well-formed line) + the spacing proper *)
